@@ -464,6 +464,13 @@ def verified_logout(ctx):
             if not ok:
                 ctx.count("verified-logout:prefix-failed")
                 continue
+            # time passes between the logins and the logout: nothing, or long enough for the ID Tokens (300 s) to have
+            # expired while access and refresh tokens are still alive
+            wait = rng.choice([0, 0, 10, 301, 400, 550])
+            if wait:
+                rs.run(("tick", wait))
+                rec["steps"].append(["tick", wait])
+            ctx.count("verified-logout:wait-%d" % wait)
             mine = [gi for gi, g in enumerate(rs.grants) if g[2] == u]
             removed = rng.sample(mine, rng.choice([0, 1, 1, 1, 2])) if len(mine) > 2 else rng.sample(mine, rng.choice([0, 1]))
 
